@@ -563,7 +563,9 @@ func pipeline(schema *graphql.Schema, query, vars string, disable bool) (res pip
 		astnormalization.WithPrevalidationRules(
 			astvalidation.DeferStreamOnValidOperations(),
 			astvalidation.DeferStreamHaveUniqueLabels(),
+			astvalidation.DirectivesAreDefined(),
 			astvalidation.DirectivesAreInValidLocations(),
+			astvalidation.DirectivesAreUniquePerLocation(),
 			astvalidation.StreamAppliedToListFieldsOnly()))
 	if err != nil {
 		return pipeRes{stage: "other:norm1", msg: err.Error()}
